@@ -342,6 +342,11 @@ def r3(ctx):
         f = dict(a[2])
         ttl_ok = roots(f["ttl"]) == {("param", 1, "ttl")}
         cap_roots = roots(f["capacity"])
+        # `capacity.unwrap_or(usize::MAX)` is the same mapping as the if-let: its value is the payload or the default
+        uo = [x for x in cap_roots if x[0] == "call" and re.search(r"Option::unwrap_or$", short(x[1])) and len(x[2]) == 2 and
+              roots(x[2][0]) == {("param", 2, "capacity")} and const_int_of(x[2][1]) is not None]
+        if uo and len(uo) == len(cap_roots):
+            cap_roots = {("field", ("as", ("param", 2, "capacity"), "Some"), "0"), uo[0][2][1]}
         cap_ok = any(x[0] in ("as", "field") and ("param", 2, "capacity") in [y for y in walk(x)] for x in cap_roots)
         # ... and every given capacity is taken as it is: the only other value is the "no limit" of None, chosen on the None edge alone
         ng = Guards(new, prov, facts)
